@@ -96,7 +96,7 @@ def run(module, *, constants=None, defs=None, init="Init", next="Next", spec=Non
         mc = "MC"
         lines = ["---- MODULE %s ----" % mc,
                  "EXTENDS %s" % ", ".join([module] + list(extends_extra))]
-        for k, v in defs.items():
+        for k, v in defs.items():      # "Name" or "Name(args)" for operator constants
             lines.append("MC_%s == %s" % (k, v))
         if extra_text:
             lines.append(extra_text)
@@ -114,6 +114,7 @@ def run(module, *, constants=None, defs=None, init="Init", next="Next", spec=Non
             for k, v in constants.items():
                 cfg.append("  %s = %s" % (k, _cfg_value(v)))
             for k in defs:
+                k = k.split("(")[0]
                 cfg.append("  %s <- MC_%s" % (k, k))
         for i in invariants:
             cfg.append("INVARIANT %s" % i)
